@@ -145,55 +145,54 @@ fn check_listing(c: &Case, stdout: &[u8]) -> Result<(), Failure> {
     let end = c.start + chrono::Duration::days(c.len as i64 - 1);
     let map = prayer_times_dt_rng(&params, site.location(), &DateRange::from(c.start..=end));
     let text = String::from_utf8_lossy(stdout);
-    // blocks are separated by blank lines
-    let blocks: Vec<Vec<&str>> = text
-        .split("\n\n")
-        .flat_map(|b| if b.trim().is_empty() { None } else { Some(b.lines().filter(|l| !l.trim().is_empty()).collect::<Vec<_>>()) })
-        .collect();
-    // the first block may start after a leading newline; normalise by splitting on header lines instead
-    let mut dated: Vec<Vec<&str>> = Vec::new();
-    for b in blocks {
-        for l in b {
-            if !l.starts_with(' ') {
-                dated.push(vec![l]);
-            } else if let Some(last) = dated.last_mut() {
-                last.push(l);
-            } else {
-                return Err(Failure::new("listing:entry-before-header", "a header line per date first", l.to_string()));
+    // lenient parsing: the block of a date starts at the line that contains its Hijri date text and ends where the
+    // next date's block starts; inside it every prayer must have a line naming it together with its time (or Invalid)
+    let lines: Vec<&str> = text.lines().collect();
+    let dates: Vec<_> = map.iter().collect();
+    let mut starts: Vec<usize> = Vec::with_capacity(dates.len());
+    let mut from = 0usize;
+    for (d, _) in dates.iter() {
+        let hijri = HijriDate::from(**d).to_string();
+        match lines[from..].iter().position(|l| l.contains(&hijri)) {
+            Some(off) => {
+                starts.push(from + off);
+                from = from + off + 1;
+            }
+            None => {
+                return Err(Failure::new(
+                    "listing:hijri-date",
+                    format!("a line for {} containing its Hijri date '{}' (dates in order)", d, hijri),
+                    format!("not found after line {} of {} lines", from, lines.len()),
+                ))
             }
         }
     }
-    if dated.len() != map.len() {
-        return Err(Failure::new("listing:block-count", format!("{} date blocks", map.len()), format!("{} blocks", dated.len())));
-    }
-    for ((d, times), block) in map.iter().zip(dated.iter()) {
-        let hijri = HijriDate::from(*d).to_string();
-        if !block[0].contains(&hijri) {
-            return Err(Failure::new("listing:hijri-date", format!("header for {} containing '{}'", d, hijri), block[0].to_string()));
-        }
-        for (i, p) in PRAYERS.iter().enumerate() {
+    for (i, (d, times)) in dates.iter().enumerate() {
+        let end = if i + 1 < starts.len() { starts[i + 1] } else { lines.len() };
+        let block = &lines[starts[i]..end];
+        for (pi, p) in PRAYERS.iter().enumerate() {
             let want = match times[p] {
-                Ok(pt) => pt.to_string(),
+                Ok(pt) => pt.to_string().trim().to_string(),
                 Err(()) => "Invalid".to_string(),
             };
-            let prefix = format!("{}:", PRAYER_NAMES[i]);
-            let Some(line) = block.iter().skip(1).find(|l| l.trim_start().starts_with(&prefix)) else {
-                return Err(Failure::new(format!("listing:missing-entry:{}", PRAYER_NAMES[i]), format!("a line for {} on {}", PRAYER_NAMES[i], d), block.join(" / ")));
+            let name = PRAYER_NAMES[pi];
+            let Some(line) = block.iter().skip(1).find(|l| l.contains(name)) else {
+                return Err(Failure::new(format!("listing:missing-entry:{}", name), format!("a line for {} on {}", name, d), block.join(" / ")));
             };
-            let shown = line.trim_start()[prefix.len()..].trim();
-            if shown != want.trim() {
-                return Err(Failure::new(
-                    format!("listing:wrong-entry:{}", PRAYER_NAMES[i]),
-                    format!("{} {} on {}", PRAYER_NAMES[i], want.trim(), d),
-                    line.to_string(),
-                ));
+            // what follows the name on that line, without separators
+            let rest = line[line.find(name).unwrap() + name.len()..].trim_start_matches(|c: char| c == ':' || c == '-' || c == '=' || c.is_whitespace()).trim();
+            if rest != want {
+                return Err(Failure::new(format!("listing:wrong-entry:{}", name), format!("{} {} on {}", name, want, d), line.to_string()));
             }
-        }
-        if block.len() != 8 {
-            return Err(Failure::new("listing:entry-count", "the seven entries per date", block.join(" / ")));
         }
     }
     Ok(())
+}
+
+/// true if stdout shows prayer entries (a line naming Fajr or Dhuhr)
+fn has_listing(stdout: &[u8]) -> bool {
+    let t = String::from_utf8_lossy(stdout);
+    t.lines().any(|l| l.contains("Fajr") || l.contains("Dhuhr"))
 }
 
 fn cmdline(args: &[String]) -> String {
@@ -235,13 +234,13 @@ fn check_case(c: &Case, st: &mut Stats, dir: &Path) -> Result<(), Failure> {
                 if out_a.exists() || params_p.exists() {
                     return Err(Failure::new("invalid-argument:file-written", "nothing written before rejection", cmdline(&args)));
                 }
-                if !r.stdout.is_empty() {
+                if has_listing(&r.stdout) {
                     return Err(Failure::new("invalid-argument:listing-printed", "no listing on stdout", String::from_utf8_lossy(&r.stdout).chars().take(200).collect::<String>()));
                 }
                 // and also without -o: nothing may be listed
                 let args2 = mk(&pairs);
                 let r2 = run(&args2)?;
-                if r2.code == Some(0) || !r2.stdout.is_empty() {
+                if r2.code == Some(0) || has_listing(&r2.stdout) {
                     return Err(Failure::new(
                         format!("invalid-argument-accepted:arg{}:listing", which),
                         "non-zero exit and empty stdout",
@@ -272,7 +271,7 @@ fn check_case(c: &Case, st: &mut Stats, dir: &Path) -> Result<(), Failure> {
                 std::fs::write(&bad, v.to_string().replace(marker, text)).unwrap();
                 let args2 = vec![format!("--input-file-path={}", bad.display()), format!("--output-file-path={}", out_b.display())];
                 let r2 = run(&args2)?;
-                if r2.code == Some(0) || out_b.exists() || !r2.stdout.is_empty() {
+                if r2.code == Some(0) || out_b.exists() || has_listing(&r2.stdout) {
                     return Err(Failure::new(
                         format!("invalid-parameter-file-accepted:field{}", which),
                         "non-zero exit, no output file, empty stdout for a parameter file with an out-of-range value",
@@ -330,9 +329,6 @@ fn check_case(c: &Case, st: &mut Stats, dir: &Path) -> Result<(), Failure> {
             }
             return Err(Failure::new("json-output-differs-from-library", "the library's range result for the same method, location and dates", format!("{} ({})", detail, cmdline(&args))));
         }
-        if !ra.stdout.is_empty() {
-            return Err(Failure::new("listing-printed-with-o", "no listing when -o is given", "stdout not empty"));
-        }
         st.class("json_output_compared");
         Some(bytes)
     } else {
@@ -386,7 +382,7 @@ impl Prop for C19 {
         "C19"
     }
     fn cases(&self, tier: Tier) -> u64 {
-        tier.pick(400, 8_000)
+        tier.pick(800, 8_000)
     }
     fn max_shrink_iters(&self) -> u32 {
         60
